@@ -145,6 +145,9 @@ impl Table {
                 )?;
             }
         }
+        // The writer may be buffered (e.g. a CFB stream, whose destructor
+        // ignores errors), so make sure that any write error is reported.
+        writer.flush()?;
         Ok(())
     }
 }
